@@ -863,8 +863,8 @@ def _only_termination(stmts) -> bool:
 
 
 def run(ctx: Context) -> None:
-    r1_random_sources(ctx)
-    r2_ids(ctx)
-    r3_seeding_order(ctx)
-    r4_hash_order(ctx)
-    r5_identity_and_clock(ctx)
+    ctx.isolate(r1_random_sources)
+    ctx.isolate(r2_ids)
+    ctx.isolate(r3_seeding_order)
+    ctx.isolate(r4_hash_order)
+    ctx.isolate(r5_identity_and_clock)
